@@ -539,6 +539,43 @@ def rule_c(res: Results, idx: Index) -> None:
     res.control("R-C08c", "backward list, set, reversed list, graph sequence are classified BACKWARD, UNORDERED, FORWARD, GRAPH", got == ["BACKWARD", "UNORDERED", "FORWARD", "GRAPH"], str(got))
 
 
+def _paired_at_call_sites(idx: Index, fi, obj: str, n: ast.Assign, du) -> bool:
+    """The helper idiom: `def f(v, declared): v.const_value = <payload converted to a dtype derived from declared>` is paired when every
+    caller did `<v arg>.type = …<declared arg>…` before calling f (payload follows the type the caller has just declared)."""
+    a = fi.node.args  # type: ignore[attr-defined]
+    params = [x.arg for x in a.posonlyargs + a.args]
+    if params and params[0] in ("self", "cls"):
+        params = params[1:]
+    if obj not in params:
+        return False
+    deps = (du.closure(names_in(n.value)) | names_in(n.value)) & (set(params) - {obj})
+    if not deps:
+        return False
+    sites = []
+    for m in idx.product_modules():
+        if not m.rel.startswith("jax2onnx/converter/"):
+            continue
+        for g in m.funcs.values():
+            for c in walk_no_nested(g.node):
+                if isinstance(c, ast.Call) and (call_name(c) or "").split(".")[-1] == fi.name and c is not n.value:
+                    sites.append((g, c))
+    if not sites:
+        return False
+    for g, c in sites:
+        if len(c.args) < len(params) or not isinstance(c.args[params.index(obj)], ast.Name):
+            return False
+        vname = c.args[params.index(obj)].id
+        ok = False
+        for t in deps:
+            targ = src(c.args[params.index(t)], 60)
+            for st in walk_no_nested(g.node):
+                if isinstance(st, ast.Assign) and st.lineno < c.lineno and any(isinstance(x, ast.Attribute) and x.attr == "type" and isinstance(x.value, ast.Name) and x.value.id == vname for x in st.targets) and targ in src(st.value, 200):
+                    ok = True
+        if not ok:
+            return False
+    return True
+
+
 def run(res: Results, idx: Index, tier: str) -> None:
     res.rule("R-C08a", "post-processing never touches interface values and only replaces a dimension by None or by itself", floor=4)
     res.rule("R-C08b", "const_value replacement is followed by the matching type assignment on every path", floor=1)
@@ -677,6 +714,8 @@ def run(res: Results, idx: Index, tier: str) -> None:
                 r = g.reachable(g.nodes_of(n), removed_nodes={x for a in tys for x in g.nodes_of(a)})
                 if tys and g.EXIT not in r:
                     res.ok("R-C08b", site, key, f"`{obj}.type` is assigned on every path after the payload is replaced", fi.qualname)
+                elif _paired_at_call_sites(idx, fi, obj, n, du):
+                    res.ok("R-C08b", site, key, f"`{obj}` is a parameter; the payload's dtype derives from another parameter, and every call site assigns `{obj}.type` from that same argument before the call", fi.qualname)
                 else:
                     res.violation("R-C08b", site, key, f"`{obj}.const_value` is replaced but `{obj}.type` is not updated on every following path: the declared element type can contradict the constant's payload", fi.qualname)
     res.analysed["const_value_writes"] = n_cv
